@@ -171,6 +171,14 @@ class ExprMixin:
             return VReal(z3.ToReal(v.t))
         if kind[0] == 'real' and isinstance(v, VBool):
             return VReal(z3.If(v.t, z3.RealVal(1), z3.RealVal(0)))
+        if kind[0] == 'str' and isinstance(v, VPy):
+            return VStr(self.uf('py_as_str', [self.ctx.sorts.PyVal], z3.StringSort())(v.t))
+        if kind[0] == 'data' and isinstance(v, VPy):
+            # a name read from a JSON document, used as the datum of a term node: names are strings (stated as an assumption)
+            self.ctx.assumptions.add('feature names read from an opaque JSON mapping are strings')
+            return VData(self.ctx.sorts.Data.DStr(self.uf('py_as_str', [self.ctx.sorts.PyVal], z3.StringSort())(v.t)))
+        if kind[0] == 'data' and isinstance(v, VElem):
+            return self.coerce(self.coerce(v, STR), DATA)       # a string item of a document
         if kind[0] == 'data':
             D = self.ctx.sorts.Data
             if isinstance(v, VStr):
@@ -183,6 +191,31 @@ class ExprMixin:
                 return VData(D.DOp(v.t))
             if isinstance(v, VNone):
                 return VData(D.DNone)
+        if kind[0] == 'str' and isinstance(v, VElem):
+            # a string item of a JSON list (document node with tag '#str')
+            E = self.ctx.sorts.Elem
+            p = getattr(self, '_cur_path', None)
+            if p is not None:
+                self.ctx.oblige(p, 'defined', 'string expected, JSON object found (TypeError)',
+                                z3.And(E.tag(v.t) == z3.StringVal('#str'), E.has_text(v.t)))
+            return VStr(E.text(v.t))
+        if kind[0] == 'elem':
+            E, L = self.ctx.sorts.Elem, self.ctx.sorts.ElemList
+            if isinstance(v, VStr):
+                return VElem(E.EElem(z3.StringVal('#str'), z3.BoolVal(True), v.t, L.ENil))
+            if isinstance(v, VDict):
+                view = getattr(self.ctx.cur_contract, 'doc_view', None) or getattr(self.ctx, 'doc_view', None)
+                if view and set(v.items) == set(view):
+                    tag = self.coerce(v.items[view[0]], STR).t
+                    kids = self.coerce(v.items[view[1]], ELEMLIST).t
+                    return VElem(E.EElem(tag, z3.BoolVal(False), z3.StringVal(''), kids))
+                raise OutOfReach(f'dict with keys {sorted(map(str, v.items))} is not a document node of the declared view')
+        if kind[0] == 'elemlist' and isinstance(v, (VList, VTuple)):
+            L = self.ctx.sorts.ElemList
+            t = L.ENil
+            for it in reversed(v.items):
+                t = L.ECons(self.coerce(it, ELEM).t, t)
+            return VElemList(t)
         if kind[0] == 'str' and isinstance(v, VData):
             return VStr(self.ctx.sorts.Data.s(v.t))
         if kind[0] == 'seq' and isinstance(v, (VList, VTuple, VHeapList)):
@@ -228,6 +261,10 @@ class ExprMixin:
                 nn = lambda v: getattr(v, 'elems_nonnull', False) or (isinstance(v, VList) and not v.items)
                 res.elems_nonnull = nn(a) and nn(b)
                 return res
+            elif 'elem' in (ka[0], kb[0]) and {ka[0], kb[0]} <= {'elem', 'dict', 'str'}:
+                a, b = self.coerce(a, ELEM), self.coerce(b, ELEM)
+            elif 'elemlist' in (ka[0], kb[0]) and {ka[0], kb[0]} <= {'elemlist', 'list', 'tuple'}:
+                a, b = self.coerce(a, ELEMLIST), self.coerce(b, ELEMLIST)
             elif 'data' in (ka[0], kb[0]) or {ka[0], kb[0]} <= {'str', 'enum', 'int', 'real', 'none'}:
                 a, b = self.coerce(a, DATA), self.coerce(b, DATA)
             else:
@@ -249,6 +286,11 @@ class ExprMixin:
             tb, eb = self.to_seq(b, self._cur_path)
             return VSeq(z3.If(c, ta, tb), ea)
         if isinstance(a, VDict):
+            view = getattr(self.ctx.cur_contract, 'doc_view', None)
+            if view and set(a.items) == set(view) == set(b.items):
+                # two JSON objects of the declared document view: merge them as document nodes
+                a2, b2 = self.coerce(a, ELEM), self.coerce(b, ELEM)
+                return VElem(z3.If(c, a2.t, b2.t))
             if set(a.items) != set(b.items):
                 raise OutOfReach('merge of dicts with different keys')
             return VDict({k: self.merge(c, a.items[k], b.items[k]) for k in a.items})
@@ -302,6 +344,14 @@ class ExprMixin:
             na, nb = S.null(a.cls), S.null(b.cls)
             user = self.user_eq(m, a, b, path)
             return z3.If(z3.Or(a.t == na, b.t == nb), z3.And(a.t == na, b.t == nb), user)
+        if isinstance(a, VElem) or isinstance(b, VElem):
+            a2, b2 = self.coerce(a, ELEM), self.coerce(b, ELEM)
+            if not (isinstance(a2, VElem) and isinstance(b2, VElem)):
+                return z3.BoolVal(False)
+            return a2.t == b2.t
+        if isinstance(a, VElemList) or isinstance(b, VElemList):
+            a2, b2 = self.coerce(a, ELEMLIST), self.coerce(b, ELEMLIST)
+            return a2.t == b2.t
         if isinstance(a, (VData,)) or isinstance(b, (VData,)):
             a2, b2 = self.coerce(a, DATA), self.coerce(b, DATA)
             return a2.t == b2.t
@@ -859,6 +909,11 @@ class ExprMixin:
             try:
                 key = py_const(idx)
             except KeyError:
+                if isinstance(idx, VData) and any(isinstance(k, tuple) and k[0] == 'enum' for k in base.items):
+                    # a table keyed by operators, looked up with the datum of a node
+                    D = self.ctx.sorts.Data
+                    self.ctx.oblige(path, 'defined', 'dict key present (KeyError): the datum is not an operator', D.is_DOp(idx.t), ln)
+                    idx = VEnum('ASTOperation', D.op(idx.t))
                 if isinstance(idx, VEnum):
                     # lookup table keyed by enum members
                     entries = [(k, v) for k, v in base.items.items() if isinstance(k, tuple) and k[0] == 'enum']
@@ -877,6 +932,19 @@ class ExprMixin:
                 self.ctx.oblige(path, 'defined', f'dict key {key!r} present (KeyError)', z3.BoolVal(False), ln)
                 raise PathAbort('KeyError')
             return base.items[key]
+        if isinstance(base, VElem) and isinstance(idx, VStrConst):
+            # JSON object viewed as a document node (doc_view = (key of the tag, key of the children) in the contract)
+            view = getattr(self.ctx.cur_contract, 'doc_view', None) or getattr(self.ctx, 'doc_view', None)
+            if not view:
+                raise OutOfReach('string subscript on a document node without doc_view in the contract')
+            E = self.ctx.sorts.Elem
+            self.ctx.oblige(path, 'defined', 'subscript with a key on a string item (TypeError)', E.tag(base.t) != z3.StringVal('#str'), ln)
+            if idx.py == view[0]:
+                return VStr(E.tag(base.t))
+            if idx.py == view[1]:
+                return VElemList(E.kids(base.t))
+            self.ctx.oblige(path, 'defined', f'key {idx.py!r} present (KeyError)', z3.BoolVal(False), ln)
+            raise PathAbort('KeyError')
         if isinstance(base, (VElem, VElemList)):
             L = self.ctx.sorts.ElemList
             lst = self.ctx.sorts.Elem.kids(base.t) if isinstance(base, VElem) else base.t
@@ -899,6 +967,20 @@ class ExprMixin:
                 return self.at(base, n + i, path)
             self.ctx.oblige(path, 'defined', 'index in range (IndexError)', z3.And(0 <= i, i < n), ln)
             return self.at(base, i, path)
+        if isinstance(base, VPy):
+            # item of an opaque mapping (e.g. a dict read from JSON): an uninterpreted function of the mapping and the key;
+            # a missing key raises KeyError in the real code (loud), which this model does not distinguish
+            P = self.ctx.sorts.PyVal
+            if isinstance(idx, VElem):
+                idx = self.coerce(idx, STR)
+            if isinstance(idx, VStr):
+                key = self.uf('py_of_str', [z3.StringSort()], P)(idx.t)
+            elif isinstance(idx, VPy):
+                key = idx.t
+            else:
+                raise OutOfReach(f'subscript of a library value with a {idx.kind} key')
+            self.ctx.assumptions.add('items of opaque mappings are uninterpreted functions of (mapping, key); a missing key raises in the real code')
+            return VPy(self.uf('py_item', [P, P], P)(base.t, key))
         if isinstance(base, VStr):
             i = self.coerce(idx, INT).t
             n = z3.Length(base.t)
